@@ -170,7 +170,7 @@ fn eval(name: &str, a: &[Value]) -> Value {
             let testcase = scrut::testcase::TestCase {
                 title: "t".into(),
                 shell_expression: "true".into(),
-                expectations: vec![maker.parse(expectation).unwrap()],
+                expectations: if w["with_expectation"].as_bool().unwrap_or(true) { vec![maker.parse(expectation).unwrap()] } else { vec![] },
                 exit_code: w["expected"].as_i64().map(|x| x as i32),
                 line_number: 1,
                 config,
@@ -183,8 +183,8 @@ fn eval(name: &str, a: &[Value]) -> Value {
                 _ => ExitStatus::Unknown,
             };
             let output = scrut::output::Output {
-                stdout: b"o\n".to_vec().into(),
-                stderr: b"e\n".to_vec().into(),
+                stdout: (if w["stdout_written"].as_bool().unwrap_or(true) { b"o\n".to_vec() } else { vec![] }).into(),
+                stderr: (if w["stderr_written"].as_bool().unwrap_or(true) { b"e\n".to_vec() } else { vec![] }).into(),
                 exit_code: status,
             };
             match testcase.validate(&output) {
@@ -221,10 +221,12 @@ fn eval(name: &str, a: &[Value]) -> Value {
             let tests = match parser.parse(&text) { Ok((_c, t)) => t, Err(e) => return json!({"parse_error": format!("{:#}", e)}) };
             // optional 3rd argument: indices of tests that now print the single line `zz` instead (validated for real: the diff is DiffTool's)
             let fails: Vec<usize> = a.get(2).and_then(|v| v.as_array()).map(|v| v.iter().filter_map(|x| x.as_u64().map(|n| n as usize)).collect()).unwrap_or_default();
+            // optional 4th argument: indices of tests that now print `zz` and end with exit code 3 (no template writes that code)
+            let code_fails: Vec<usize> = a.get(3).and_then(|v| v.as_array()).map(|v| v.iter().filter_map(|x| x.as_u64().map(|n| n as usize)).collect()).unwrap_or_default();
             let outcomes: Vec<scrut::outcome::Outcome> = tests.iter().enumerate().map(|(i, t)| {
-                let failing = fails.contains(&i);
+                let failing = fails.contains(&i) || code_fails.contains(&i);
                 let output = scrut::output::Output { stdout: (if failing { b"zz\n".to_vec() } else { vec![] }).into(), stderr: vec![].into(),
-                    exit_code: scrut::output::ExitStatus::Code(t.exit_code.unwrap_or(0)) };
+                    exit_code: scrut::output::ExitStatus::Code(if code_fails.contains(&i) { 3 } else { t.exit_code.unwrap_or(0) }) };
                 let result = if failing { t.validate(&output) } else { Ok(()) };
                 scrut::outcome::Outcome { location: None, output, testcase: t.clone(), format: scrut::parsers::parser::ParserType::Markdown,
                     escaping: scrut::escaping::Escaper::Unicode, result }
@@ -234,6 +236,7 @@ fn eval(name: &str, a: &[Value]) -> Value {
                 Ok(u) => {
                     // parse the updated document again: same commands and expectation lines?
                     let summary = |ts: &Vec<scrut::testcase::TestCase>| ts.iter().map(|t| json!({"shell_expression": t.shell_expression,
+                        "exit_code": t.exit_code,
                         "expectations": t.expectations.iter().map(|e| e.original_string()).collect::<Vec<_>>()})).collect::<Vec<_>>();
                     let again = match parser.parse(&u) { Ok((_c, t)) => json!({"Ok": summary(&t)}), Err(e) => json!({"Err": format!("{:#}", e)}) };
                     json!({"updated": u, "tests": tests.len(), "original": summary(&tests), "reparsed": again})
@@ -497,6 +500,42 @@ fn eval(name: &str, a: &[Value]) -> Value {
                     max_surrounding_lines: surrounding, absolute_line_numbers: false, summarize: true }).render(&[*o1]));
             let o2 = std::panic::AssertUnwindSafe(&outcome);
             let diffr = std::panic::catch_unwind(move || scrut::renderers::diff::DiffRenderer::new().render(&[*o2]));
+            json!({"pretty": show(pretty), "diff": show(diffr)})
+        }
+        // pretty and diff renderer on a list of outcomes: [kinds over P F C T S, located?] — the same texts as the E2 harness uses
+        "render_outcome_list" => {
+            use scrut::renderers::renderer::Renderer;
+            let kinds = str_arg(&a[0]);
+            let located = a[1].as_bool().unwrap_or(false);
+            let maker = scrut::expectation::ExpectationMaker::new(scrut::rules::registry::RuleRegistry::default());
+            let mut outcomes = vec![];
+            for (i, k) in kinds.chars().enumerate() {
+                let exp = maker.parse(&format!("want{}q", i)).unwrap();
+                let line = format!("got{}z\n", i).into_bytes();
+                let testcase = scrut::testcase::TestCase { title: format!("title{}t", i), shell_expression: format!("cmd{}c", i), expectations: vec![exp.clone()],
+                    exit_code: None, line_number: 3 + 10 * i, config: scrut::config::TestCaseConfig::empty() };
+                let result = match k {
+                    'P' => Ok(()),
+                    'F' => Err(scrut::testcase::TestCaseError::MalformedOutput(scrut::diff::Diff::new(vec![
+                        scrut::diff::DiffLine::UnmatchedExpectation { index: 0, expectation: exp.clone() },
+                        scrut::diff::DiffLine::UnexpectedLines { lines: vec![(0, line.clone())] }]))),
+                    'C' => Err(scrut::testcase::TestCaseError::InvalidExitCode { actual: 4, expected: 0 }),
+                    'T' => Err(scrut::testcase::TestCaseError::Timeout),
+                    _ => Err(scrut::testcase::TestCaseError::Skipped),
+                };
+                let output = scrut::output::Output { stdout: (if k == 'F' || k == 'C' { line.clone() } else { vec![] }).into(), stderr: vec![].into(),
+                    exit_code: scrut::output::ExitStatus::Code(if k == 'C' { 4 } else { 0 }) };
+                outcomes.push(scrut::outcome::Outcome { location: if located { Some(format!("doc{}.md", i % 2)) } else { None }, output, testcase,
+                    format: scrut::parsers::parser::ParserType::Markdown, escaping: scrut::escaping::Escaper::Unicode, result });
+            }
+            let refs: Vec<&scrut::outcome::Outcome> = outcomes.iter().collect();
+            let show = |r: std::thread::Result<anyhow::Result<String>>| match r {
+                Ok(Ok(s)) => json!({"Ok": s}), Ok(Err(e)) => json!({"Err": format!("{:#}", e)}), Err(_) => json!({"panic": true}) };
+            let r1 = std::panic::AssertUnwindSafe(&refs);
+            let pretty = std::panic::catch_unwind(move || scrut::renderers::pretty::PrettyMonochromeRenderer::new(scrut::renderers::pretty::PrettyColorRenderer {
+                    max_surrounding_lines: 1, absolute_line_numbers: false, summarize: true }).render(&r1[..]));
+            let r2 = std::panic::AssertUnwindSafe(&refs);
+            let diffr = std::panic::catch_unwind(move || scrut::renderers::diff::DiffRenderer::new().render(&r2[..]));
             json!({"pretty": show(pretty), "diff": show(diffr)})
         }
         // pretty and diff renderer on a failed test case with a matched expectation `text`, an unmatched `text`x and an unexpected line `text`y
